@@ -262,7 +262,7 @@ theorem fvInfoOf_ffs (zv : Bytes) (v3 : Bool) (attrs rev rsv : Nat) (blocks : Li
         (endFiles (preLen blocks (some e)) files + free) attrs 0 (ehoOf blocks (some e)) rsv rev blocks)).toNat
       (ehoOf blocks (some e)) rsv rev blocks w.hzv hgl
     have hcond : (ehoOf blocks (some e) ≠ 0 ∧ endFiles (preLen blocks (some e)) files + free ≥ 20 ∧
-        ehoOf blocks (some e) < endFiles (preLen blocks (some e)) files + free - 20) := by
+        ehoOf blocks (some e) ≤ endFiles (preLen blocks (some e)) files + free - 20) := by
       refine ⟨?_, ?_, ?_⟩
       · simp only [ehoOf, fvHdrLen]; omega
       · omega
@@ -275,7 +275,7 @@ theorem fvInfoOf_ffs (zv : Bytes) (v3 : Bool) (attrs rev rsv : Nat) (blocks : Li
       simp [preBytes]
     have hx : decide (ehoOf blocks (some e) ≠ 0 ∧ endFiles (preLen blocks (some e)) files + free ≥ 20 ∧
         ehoOf blocks (some e) ≤ endFiles (preLen blocks (some e)) files + free - 20) = true := by
-      simp only [decide_eq_true_eq]; exact ⟨hcond.1, hcond.2.1, Nat.le_of_lt hcond.2.2⟩
+      simp only [decide_eq_true_eq]; exact hcond
     have hbound : fvHdrLen blocks + e.gap.length + (20 + e.data.length) < 2 ^ 63 := by
       have : ehoOf blocks (some e) = fvHdrLen blocks + e.gap.length := rfl
       omega
